@@ -35,7 +35,12 @@ void h_decode_gain(void)
    __CPROVER_assume(st->channels == VERIF_CH && st->frame_size == VERIF_FRAME * F2_5);   /* concrete shapes: every buffer size is a constant (symbolic sizes cost 25 M clauses) */
 #endif
    frame_size = st->frame_size; gain = st->decode_gain;
-#ifdef VERIF_FIXED_PCM
+#ifdef VERIF_SHORT_REQ
+   /* a concealment request shorter than the last packet's frame (2.5 ms after 5 ms frames) into an exact-size buffer: the gain
+      block must work on what THIS call produced, not on the remembered frame duration */
+   frame_size = F2_5;
+   { static opus_res short_store[VERIF_CH * (VERIF_FS / 400)]; pcm = short_store; }
+#elif defined(VERIF_FIXED_PCM)
    { static opus_res pcm_store[2 * 2 * (VERIF_FS / 400)]; pcm = pcm_store; }    /* fixed capacity (memory safety of the glue is C01's subject) */
 #else
    pcm = malloc((size_t)frame_size * st->channels * sizeof(opus_res)); __CPROVER_assume(pcm != NULL);
